@@ -279,7 +279,10 @@ def dstep? (d : DS) : Op → Option DS
   | .get q => if d.inhand = none ∧ d.propd = [] then some { d with inhand := some q } else none
   | .getTimeout => if d.inhand = none ∧ d.propd = [] then some d else none
   | .leave => if d.inhand = none ∧ d.propd = [] ∧ d.held.isEmpty then some d else none
-  | .hold q => if d.inhand = some q then some { d with inhand := none, held := d.held ++ [q] } else none
+  | .hold q =>
+    if d.inhand = some q then some { d with inhand := none, held := d.held ++ [q] }
+    else if q ∈ d.propd then some { d with propd := d.propd.erase q, held := d.held ++ [q] }
+    else none
   | .drop q =>
     if d.inhand = some q then some { d with inhand := none }
     else if q ∈ d.propd then some { d with propd := d.propd.erase q }
